@@ -11,6 +11,7 @@ import Oas3Model.Driver.Registry
 import Oas3Model.Driver.Cli
 import Oas3Model.Driver.Defaults
 import Oas3Model.Driver.Enum
+import Oas3Model.Driver.Cache
 open Lean Oas3.Driver
 
 def allOps : List (String × Handler) := List.flatten [
@@ -26,6 +27,7 @@ def allOps : List (String × Handler) := List.flatten [
   Oas3.Driver.Cli.ops,
   Oas3.Driver.Defaults.ops,
   Oas3.Driver.Enum.ops,
+  Oas3.Driver.Cache.ops,
   []]
 
 def handleLine (line : String) : String :=
